@@ -24,30 +24,47 @@ def sr1(ctx, R):
         raise AnchorMissing("daqmx._scaler_classes dict literal")
     keys = [dotted(k) for k in reg.keys]
     classes = [prog.resolve_class(mod, v) for v in reg.values]
+    from .sem import instance_attrs, method_of
+    from .sym import Sym as _Sym
     for k, c in zip(keys, classes):
         if c is None:
             R.violation("daqmx._scaler_classes[%s]" % k, "%s:%d" % (mod.relpath, reg.lineno), "value is not a class")
             continue
         where = "%s:%d" % (c.module.relpath, c.node.lineno)
-        slots = prog.class_const(c, "__slots__") or []
-        init = c.methods.get("__init__")
-        assigned = set()
-        if init is not None:
-            for n in ast.walk(init.node):
-                if isinstance(n, ast.Attribute) and dotted(n.value) == "self" and isinstance(n.ctx, ast.Store):
-                    assigned.add(n.attr)
+        # attributes stored by the constructor (own or inherited); with __slots__ anywhere in the hierarchy the name must be a slot
+        assigned = instance_attrs(prog, c)
+        slot_lists = [prog.class_const(b, "__slots__") for b in prog.mro(c)]
+        slotted = all(sl is not None for sl in slot_lists[:-1]) if len(slot_lists) > 1 else slot_lists[0] is not None
+        slots = set(x for sl in slot_lists if sl for x in sl)
+        init = method_of(prog, c, "__init__")
+        dynamic = init is not None and any(isinstance(n, ast.Call) and call_name(n) == "setattr" for n in walk_body(init.node))
         for attr in ("scale_id", "data_type", "raw_buffer_index"):
-            R.check(attr in slots and attr in assigned, "%s::%s" % (c.qual, attr), where, "attribute set by the constructor",
-                    "scaler class %s does not provide `%s`, which DaqMxMetadata / get_buffer_dimensions / the data reader use" % (c.name, attr))
+            has = attr in assigned or dynamic and False
+            key = "%s::%s" % (c.qual, attr)
+            if attr in assigned and (not slotted or attr in slots):
+                R.ok(key, where, "attribute set by the constructor")
+            elif attr in assigned:
+                R.violation(key, where, "scaler class %s stores `%s` but its __slots__ do not declare it" % (c.name, attr))
+            elif init is None:
+                R.violation(key, where, "scaler class %s has no constructor that provides `%s`" % (c.name, attr))
+            else:
+                R.violation(key, where, "scaler class %s does not provide `%s`, which DaqMxMetadata / get_buffer_dimensions / the data reader use" % (c.name, attr))
         for m, nargs in (("byte_offset", 1), ("postprocess_data", 2)):
-            f = c.methods.get(m)
+            f = method_of(prog, c, m)
             R.check(f is not None and len(f.params) == nargs, "%s::%s" % (c.qual, m), where, "method present with %d parameter(s)" % nargs,
                     "scaler class %s lacks %s(%s)" % (c.name, m, "self" if nargs == 1 else "self, data"))
         R.check(init is not None and len(init.params) == 3, "%s::constructor(file, endianness)" % c.qual, where, "constructed as scaler_class(f, endianness)",
                 "constructor signature is %s" % (init.params if init else None))
         # data type through the DAQmx code table
-        R.check(init is not None and "DAQMX_TYPES[" in unparse(init.node), "%s::type code table" % c.qual, where, "data_type = DAQMX_TYPES[code]",
-                "scaler data type is not taken from DAQMX_TYPES")
+        via_table = False
+        for fn, n in assigned.get("data_type", []):
+            if isinstance(n, ast.Assign):
+                sy = _Sym(prog, fn, fn.cls, inline=False)
+                env, _g = sy.env_at(n)
+                v = sy.expr(n.value, env)
+                if v[0] == "sub" and v[1] in (("global", "DAQMX_TYPES"), ("name", "DAQMX_TYPES")):
+                    via_table = True
+        R.check(via_table, "%s::type code table" % c.qual, where, "data_type = DAQMX_TYPES[code]", "scaler data type is not taken from DAQMX_TYPES")
     # the three places that know the set of DAQmx index headers agree
     nso = prog.func("tdms_segment.TdmsSegment._new_segment_object")
     rri = prog.func("daqmx.DaqmxSegmentObject.read_raw_data_index")
@@ -254,25 +271,38 @@ def _counts_iterations(ctx, fi, name):
 
 @rule("DL1", "a digital line scaler addresses byte raw_bit_offset // 8 and bit raw_bit_offset % 8", floor=3)
 def dl1(ctx, R):
+    from .sym import Sym, show, alpha
+    from .sem import method_of, match, W
     prog = ctx.prog
-    bo = prog.func("daqmx.DigitalLineScaler.byte_offset")
-    pp = prog.func("daqmx.DigitalLineScaler.postprocess_data")
-    r = [unparse(n.value).replace(" ", "") for n in walk_body(bo.node) if isinstance(n, ast.Return)]
-    R.check(r == ["self.raw_bit_offset//8"], "daqmx.DigitalLineScaler.byte_offset", bo.where(), "raw_bit_offset // 8", "byte offset is %s" % r)
-    d = {}
-    for n in walk_body(pp.node):
-        if isinstance(n, ast.Assign) and isinstance(n.targets[0], ast.Name):
-            d[n.targets[0].id] = unparse(n.value).replace(" ", "")
-    r = [unparse(n.value).replace(" ", "") for n in walk_body(pp.node) if isinstance(n, ast.Return)]
-    ok = d.get("bit_offset") == "self.raw_bit_offset%8" and d.get("bitmask") == "1<<bit_offset" and r == ["np.right_shift(np.bitwise_and(data,bitmask),bit_offset)"]
-    R.check(ok, "daqmx.DigitalLineScaler.postprocess_data", pp.where(), "(data & (1 << (offset % 8))) >> (offset % 8)",
-            "bit extraction is %s / %s" % (d, r))
-    fs = prog.func("daqmx.DaqMxScaler.byte_offset")
-    r = [unparse(n.value) for n in walk_body(fs.node) if isinstance(n, ast.Return)]
-    R.check(r == ["self.raw_byte_offset"], "daqmx.DaqMxScaler.byte_offset", fs.where(), "raw_byte_offset", "byte offset is %s" % r)
-    ps = prog.func("daqmx.DaqMxScaler.postprocess_data")
-    r = [unparse(n.value) for n in walk_body(ps.node) if isinstance(n, ast.Return)]
-    R.check(r == [ps.params[1]], "daqmx.DaqMxScaler.postprocess_data", ps.where(), "identity", "format changing scaler data is post-processed: %s" % r)
+    dl = prog.cls("daqmx.DigitalLineScaler")
+    fc = prog.cls("daqmx.DaqMxScaler")
+    OFF = ("self", "raw_bit_offset")
+    bo = method_of(prog, dl, "byte_offset")
+    pp = method_of(prog, dl, "postprocess_data")
+    if bo is None or pp is None:
+        raise AnchorMissing("daqmx.DigitalLineScaler: byte_offset / postprocess_data")
+    v = Sym(prog, bo, dl).function_value()
+    R.check(v == ("binop", "//", (OFF, ("const", 8))), "daqmx.DigitalLineScaler.byte_offset", bo.where(), "raw_bit_offset // 8",
+            "byte offset is `%s`" % show(alpha(v))[:100])
+    D = ("param", pp.params[1])
+    BIT = ("binop", "%", (OFF, ("const", 8)))
+    MASK = ("binop", "<<", (("const", 1), BIT))
+    v = Sym(prog, pp, dl).function_value()
+    forms = [("call", "numpy.right_shift", (("call", "numpy.bitwise_and", (D, MASK), ()), BIT), ()),
+             ("binop", ">>", (("binop", "&", (D, MASK)), BIT)), ("binop", ">>", (("binop", "&", (MASK, D)), BIT)),
+             ("call", "numpy.right_shift", (("binop", "&", (D, MASK)), BIT), ())]
+    if v in forms:
+        R.ok("daqmx.DigitalLineScaler.postprocess_data", pp.where(), "(data & (1 << (offset % 8))) >> (offset % 8)")
+    elif match(("call", W(), W(), W()), v) is not None or v[0] == "binop":
+        R.violation("daqmx.DigitalLineScaler.postprocess_data", pp.where(), "bit extraction is `%s`, not (data & (1 << (offset %% 8))) >> (offset %% 8)" % show(alpha(v))[:160])
+    else:
+        R.undecided("daqmx.DigitalLineScaler.postprocess_data", pp.where(), "bit extraction `%s` not understood" % show(alpha(v))[:120])
+    fs = method_of(prog, fc, "byte_offset")
+    v = Sym(prog, fs, fc).function_value()
+    R.check(v == ("self", "raw_byte_offset"), "daqmx.DaqMxScaler.byte_offset", fs.where(), "raw_byte_offset", "byte offset is `%s`" % show(alpha(v))[:80])
+    ps = method_of(prog, fc, "postprocess_data")
+    v = Sym(prog, ps, fc).function_value()
+    R.check(v == ("param", ps.params[1]), "daqmx.DaqMxScaler.postprocess_data", ps.where(), "identity", "format changing scaler data is post-processed: `%s`" % show(alpha(v))[:80])
 
 
 @rule("SB1", "a truncated final chunk gives rows only up to the first incomplete buffer / channel", floor=2)
